@@ -289,12 +289,21 @@ def python_side(ctx, L):
     L.check(unparse(rb.node.body[0]) == 'return repr(x)[1:]', 'C18.python-format', 'repr_bytes', rb.site(),
             'bytes are rendered by CPython repr without the b prefix', unparse(rb.node.body))
     # omission rules
-    s = m.func('struct.__str__.to_str')
-    t = unparse(s.node)
-    ok = inn('for field in self._descriptor:', t) and inn('value = getattr(self, field.name, None)', t) \
-        and inn('if value is not None:', t) and inn('yield field_to_string(field.name, field.type, value)', t)
-    L.check(ok, 'C18.omission-rules', 'struct.__str__', s.site(),
-            'fields in declaration order; absent optionals and counters (whose attribute was deleted) are skipped', t)
+    S = m.func('struct.__str__')
+    calls = [c for c in S.walk(into_nested=True) if isinstance(c, ast.Call) and unparse(c.func) == 'field_to_string']
+    ok = len(calls) == 1
+    t = unparse(S.node)
+    if ok:
+        own = m.func_of.get(id(calls[0])) or S          # the nested generator, or __str__ itself when the pieces are collected in a list
+        loops = [lp for lp in own.walk() if isinstance(lp, ast.For) and any(x is calls[0] for x in ast.walk(lp))]
+        ok = len(loops) == 1 and ws(unparse(loops[0].iter)) == 'self._descriptor' and isinstance(loops[0].target, ast.Name)
+        if ok:
+            fv = loops[0].target.id
+            ok = P.sem_text(own, calls[0]) == P.sem_expected('field_to_string(%s.name, %s.type, getattr(self, %s.name, None))' % (fv, fv, fv), own.params, m) \
+                and P.knows(own, calls[0], 'getattr(self, %s.name, None) is None' % fv, False) \
+                and len(P.facts(own, calls[0])) == 1
+    L.check(ok, 'C18.omission-rules', 'struct.__str__', S.site(),
+            'fields in declaration order; absent optionals and counters (whose attribute was deleted) are skipped - and nothing else', t)
     u = m.func('union.__str__')
     t = unparse(u.node)
     ok = inn('name = self._discriminated.name', t) and inn('return field_to_string(name, self._discriminated.type, value)', t)
@@ -310,11 +319,13 @@ def generator_print(ctx, L):
         raise AnalysisError('generate_struct_print: ladder not found')
     br = templ.if_chain(chain[0])
     tests = [unparse(b.guards[-1][0]) if b.guards[-1][1] else 'else' for b in br]
-    L.check(tests == ['m.is_array', 'm.optional', 'm.name in bound', 'else'], 'C18.omission-rules',
+    # normal form: the counter arm that emits nothing (`elif m.name in bound: pass`) is the guard `m.name not in bound` of the plain arm
+    L.check(tests == ['m.is_array', 'm.optional', 'm.name not in bound', 'else'], 'C18.omission-rules',
             'generate_struct_print|ladder', f.site(chain[0]), 'ladder must be array / optional / counter / plain', str(tests))
-    if tests == ['m.is_array', 'm.optional', 'm.name in bound', 'else']:
-        L.check(unparse(br[2].body) == 'pass', 'C18.omission-rules', 'generate_struct_print|counter', f.site(),
-                'array counters are not printed', unparse(br[2].body))
+    if tests == ['m.is_array', 'm.optional', 'm.name not in bound', 'else']:
+        L.check(not br[3].body or unparse(br[3].body) == 'pass', 'C18.omission-rules', 'generate_struct_print|counter', f.site(),
+                'array counters are not printed', unparse(br[3].body))
+        br = [br[0], br[1], br[3], br[2]]
         em = br[1].emits()
         L.check(len(em) == 1 and em[0].text == 'if (x.{0}) do_print(out, indent, "{0}", *x.{0});\n' and em[0].args == ['m.name'],
                 'C18.omission-rules', 'generate_struct_print|optional', f.site(), 'absent optionals are not printed', str(em))
